@@ -210,8 +210,8 @@ class Ref:
             name, args = str(t[1]), [self.num(a) for a in t[2:]]
             try:
                 if name == 'atan2':
-                    if any(M.im(a) != 0 for a in args):
-                        raise Undefined('complex atan2')
+                    if any(M.im(a) != 0 for a in args) or (args[0] == 0 and M.re(args[1]) <= 0):
+                        raise Undefined('complex atan2, or on the branch cut (signed zero)')
                     return self.note(M.mpc(M.atan2(M.re(args[0]), M.re(args[1]))))
                 if name in ('floor', 'ceiling', 'factorial') and M.im(args[0]) != 0:
                     raise Undefined('complex ' + name)
@@ -259,6 +259,8 @@ def impl(case):
         return limited(5, impl_, case)
     except TooSlow:
         return {'built': None, 'why': 'timeout'}
+    except (MemoryError, RecursionError) as ex:
+        return {'built': None, 'why': type(ex).__name__}
 
 
 def impl_(case):
@@ -281,7 +283,7 @@ def impl_(case):
         from sympy.codegen.rewriting import optimize
         obs['post'] = ser(optimize(e, p._optims)) if isinstance(e, sp.Expr) else obs['built']
     except Exception as ex:
-        obs['post'] = None
+        obs['post'] = 'err:' + type(ex).__name__     # SymPy's own rewriting machinery refuses the tree
     return obs
 
 
@@ -305,7 +307,7 @@ def oracle(case, obs):
         return []
     try:
         return limited(10, oracle_, case, obs)
-    except TooSlow:
+    except (TooSlow, MemoryError, RecursionError):
         return []
 
 
@@ -315,6 +317,8 @@ def oracle_(case, obs):
     # what reaches the _print_* methods is the tree after doprint's secondary-trig rewriting (SymPy re-evaluates the
     # rewritten nodes and their parents: acsc(0.5) becomes asin(2.0), a complex number)
     seen = obs.get('post') or t
+    if isinstance(seen, str):
+        return [] if out == seen else [{'key': 'wrong-exception', 'detail': '%s vs %s for %s' % (out, seen, sx(t))}]
     why = unprintable(seen)
     if out.startswith('err:'):
         if degenerate(t):
@@ -440,6 +444,13 @@ def has_deriv(t):
 
 
 def classify(t, out):
+    """SymPy 1.14 evaluates cos/sin/tan(w + (x + pi)) with a held inner sum to -cos(w) (the inner sum is lost while
+    peeling off pi); doprint's rewriting of sec/csc/cot builds exactly such a call"""
+    for s in walk_all(t):
+        if s[0] == 'Fn' and str(s[1]) in ('sec', 'csc', 'cot') and s[2][0] == 'Add':
+            for a in s[2][1:]:
+                if a[0] == 'Add' and any(q[0] == 'Pi' for q in walk_all(a)):
+                    return 'wrong-value:sympy-held-sum-with-pi'
     return 'wrong-value'
 
 
